@@ -72,7 +72,7 @@ pub fn tree_spec() -> BuilderSpec {
 }
 
 fn tree<F: Float>(case: &Case, spec: &BuilderSpec, out: &mut Outcome) {
-    let ds = Dataset::new(xmat::<F>(), labels());
+    let ds = Dataset::new(xmat::<F>(), labels()).with_weights(Array1::from_shape_fn(8, |i| 1.0 + (i % 2) as f32)).with_feature_names(vec!["a", "b"]);
     let base = || DecisionTree::<F, usize>::params();
     let set = setter(&base, |mut p, c| { if c.moved(&["min_impurity_decrease"]) { p = p.min_impurity_decrease(F::cast(c.f("min_impurity_decrease"))); } if c.moved(&["max_depth"]) { p = p.max_depth(c.ou("max_depth").map(|d| d as usize)); } if c.moved(&["split_quality"]) { p = p.split_quality(if c.s("split_quality") == "gini" { SplitQuality::Gini } else { SplitQuality::Entropy }); } if c.moved(&["min_weight_leaf"]) { p = p.min_weight_leaf(c.f("min_weight_leaf") as f32); } p });
     let make = || set(base(), case);
@@ -360,13 +360,24 @@ fn tsne<F: Float>(case: &Case, spec: &BuilderSpec, out: &mut Outcome) {
     let make = || set(base(), case);
     // t-SNE implements Transformer on the unchecked builder itself (linfa-tsne/src/lib.rs:62), both forms
     // return Result<_, TSneError>
-    let ops = vec![op(
-        &make,
-        "transform",
-        |p| p.transform(data.clone()).map(|m| dbg(&m)).map_err(|e| dbg(&e)),
-        |p| p.transform(data.clone()).map(|m| dbg(&m)).map_err(|e| dbg(&e)),
-        |e| dbg(&e),
-    )];
+    let ops = vec![
+        op(
+            &make,
+            "transform",
+            |p| p.transform(data.clone()).map(|m| dbg(&m)).map_err(|e| dbg(&e)),
+            |p| p.transform(data.clone()).map(|m| dbg(&m)).map_err(|e| dbg(&e)),
+            |e| dbg(&e),
+        ),
+        // dataset form (hand-written forwarder on the unchecked builder, linfa-tsne/src/lib.rs:85): the WHOLE
+        // result is compared - embedding, targets, sample weights, feature names, target names
+        op(
+            &make,
+            "transform_dataset",
+            |p| p.transform(crate::b_cluster::rich(data.clone())).map(|m| ds_print(dbg(m.records()), &m, dbg(m.targets()))).map_err(|e| dbg(&e)),
+            |p| p.transform(crate::b_cluster::rich(data.clone())).map(|m| ds_print(dbg(m.records()), &m, dbg(m.targets()))).map_err(|e| dbg(&e)),
+            |e| dbg(&e),
+        ),
+    ];
     judge(case, spec, &base, &set, Some(&|p| p.clone()), &[], &|p| dbg(p), &|c| dbg(c), ops, out);
 }
 
